@@ -68,6 +68,7 @@ type SpecFn struct {
 	RType  string
 	Body   Expr
 	Src    string
+	Pkg    string
 }
 
 // UFun is an uninterpreted specification function with definitional (recursive) axioms.
@@ -223,7 +224,7 @@ func (cs *Contracts) LoadContractFile(path, pkgPath string, external bool) {
 					curUFun.PTypes = append(curUFun.PTypes, f[1])
 				}
 			}
-			cs.UFuns[curUFun.Name] = curUFun
+			cs.UFuns[pkgPath+"."+curUFun.Name] = curUFun // spec names are per package
 			cur, curInv = nil, nil
 			continue
 		case word == "axiom" && curUFun != nil:
@@ -302,7 +303,8 @@ func (cs *Contracts) LoadContractFile(path, pkgPath string, external bool) {
 				continue
 			}
 			sf.Body = e
-			cs.Specs[sf.Name] = sf
+			sf.Pkg = pkgPath
+			cs.Specs[pkgPath+"."+sf.Name] = sf
 			continue
 		}
 		if curInv != nil {
